@@ -801,6 +801,34 @@ where
     let cases = (tier.pick(1600u32, 32000) / weight).max(40);
     let c = cell.clone();
     out.push(Rel::new(format!("hostile/{}", name), cases, words, move |t, o| sw_hostile::<P>(c.get_or_init(|| SwCtx::<P>::new(zcash, toy)), name, t, o)));
+    if !toy {
+        // every constructed on-curve point outside the subgroup (torsion points, one per line of E[l], sums with subgroup
+        // points, ...), each sign, both compression modes, affine and projective target: run in full on every run
+        let c = cell.clone();
+        let c2 = cell.clone();
+        out.push(
+            Rel::new(format!("outside-all/{}", name), 0, 4, move |t, o| {
+                let cx = c.get_or_init(|| SwCtx::<P>::new(zcash, toy));
+                if cx.outside.is_empty() {
+                    return Ok(());
+                }
+                let (q, l) = cx.outside[t.idx(cx.outside.len())];
+                let q = if t.bool() { sw_neg(&q) } else { q };
+                let comp = if t.bool() { Compress::Yes } else { Compress::No };
+                let projective = t.bool();
+                o.class(l);
+                o.nt(true);
+                o.show(|| format!("{}: {} {:?} ({}, {})", name, l, q, cname(comp), if projective { "projective" } else { "affine" }));
+                let input = ser(&sw_to_affine::<P>(&q), comp)?;
+                let ex = Expect { value: None, must_err: true, label: l };
+                sw_run::<P>(cx, &input, comp, &ex, projective, o)
+            })
+            .exhaustive(move || {
+                let n = c2.get_or_init(|| SwCtx::<P>::new(zcash, toy)).outside.len().max(1) as u64;
+                Box::new((0..n).flat_map(|i| (0..8u64).map(move |b| vec![i, b & 1, (b >> 1) & 1, (b >> 2) & 1])))
+            }),
+        );
+    }
     if toy {
         let ga = P::GENERATOR;
         let sc = ga.serialized_size(Compress::Yes);
